@@ -17,6 +17,9 @@ enum Call {
     /// values_from_panic with rows of the given widths (0 = no second row)
     ValuesFrom(usize, usize),
     SelectFrom(usize),
+    /// select_from with a select list of the given length whose first item is a wildcard (`*` / `t.*`);
+    /// only issued when the length differs from the column list (must be rejected like any other list)
+    SelectFromStar(usize),
     OrDefault,
     OrDefaultMany(u32),
 }
@@ -38,6 +41,8 @@ fn kinds() -> Vec<Call> {
     for k in 0..4 {
         v.push(Call::SelectFrom(k));
     }
+    v.push(Call::SelectFromStar(1));
+    v.push(Call::SelectFromStar(2));
     v.push(Call::OrDefault);
     v.push(Call::OrDefaultMany(0));
     v.push(Call::OrDefaultMany(2));
@@ -364,6 +369,36 @@ fn run_seq(ctx: &Ctx, rep: &mut Report, n: u64, seq: &[Call]) {
                         rule_fail = Some((
                             "R.result",
                             format!("select_from cols={} items={j}: model ok={want_ok}", m.cols.len()),
+                            json!({"got": format!("{got:?}")}),
+                        ));
+                    }
+                }
+            }
+            Call::SelectFromStar(j) => {
+                if m.cols.len() == j {
+                    // would be accepted: not modelled, leave the statement alone
+                    continue;
+                }
+                let mut sel = Query::select();
+                if j % 2 == 1 {
+                    sel.column(sea_query::Asterisk);
+                } else {
+                    sel.column((Alias::new("src"), sea_query::Asterisk));
+                }
+                for t in tg.row(j - 1) {
+                    sel.expr(SimpleExpr::Value(t.into()));
+                }
+                sel.from(Alias::new("src"));
+                let got = guard(|| stmt.select_from(sel).map(|_| ()));
+                match &got {
+                    Ok(Err(Error::ColValNumMismatch { col_len, val_len })) if *col_len == m.cols.len() && *val_len == j => {
+                        failed = true;
+                        rep.count("errors_returned_and_checked", 1);
+                    }
+                    _ => {
+                        rule_fail = Some((
+                            "R.result",
+                            format!("select_from (wildcard first) cols={} items={j}: must be rejected", m.cols.len()),
                             json!({"got": format!("{got:?}")}),
                         ));
                     }
